@@ -311,6 +311,10 @@ def gen_cases(seed, n):
     for a1, a2 in ((("o", "uneval_ir.CLOSURE_A"), ("o", "uneval_ir.CLOSURE_B")),
                    (("o", "uneval_ir.LAMBDA_A[0]"), ("o", "uneval_ir.LAMBDA_A[1]"))):
         cases.append({"kind": "eq", "ir": ("U", edw, eargs, [a1, ("n",)]), "irb": ("U", edw, eargs, [a2, ("n",)])})
+    # value objects (own __eq__/__hash__, default repr): two equal objects built separately are equal attributes
+    for v1, v2 in (("1/2", "1/2"), ("1/2", "3/1")):
+        cases.append({"kind": "eq", "ir": ("U", edw, eargs, [("o", f"uneval_ir.ValueObj({v1})"), ("n",)]),
+                      "irb": ("U", edw, eargs, [("o", f"uneval_ir.ValueObj({v2})"), ("n",)])})
     cases.append({"kind": "eq", "ir": ("U", bms, [s, m1, m2], [("o", "uneval_ir.CLOSURE_A")]),
                   "irb": ("U", bms, [s, m1, m2], [("o", "uneval_ir.CLOSURE_B")])})
     # a SymPy callable with a free parameter in a sympify=False field: substitution must reach it
